@@ -3,6 +3,7 @@ package sample
 import (
 	"bytes"
 	"fmt"
+	"math"
 	"sort"
 	"strconv"
 	"strings"
@@ -180,6 +181,11 @@ func appendValueAsString(buf []byte, value any) []byte {
 	case int64:
 		return strconv.AppendInt(buf, v, 10)
 	case float64:
+		// a whole number reads exactly like the same value sent as an integer;
+		// 'f' alone pads the shortest digits with zeros (2^60 -> ...847000)
+		if v == math.Trunc(v) && math.Abs(v) < 1<<63 {
+			return strconv.AppendInt(buf, int64(v), 10)
+		}
 		return strconv.AppendFloat(buf, v, 'f', -1, 64)
 	case bool:
 		return strconv.AppendBool(buf, v)
